@@ -26,6 +26,10 @@ CLAIMED = {
  'C06': dict(engine = 'symx', technique = 'symbolic execution of real dictable.inc/exc/find_ with z3 over tagged cells (None, ints, extended-real floats with NaN identity, pooled strings); counterexample replay',
              text = 'For every table of 0..3 rows (thorough 4) with symbolic cells and every condition kind (value, lists, None, NaN, regex, dict filter, conjunctions, single callables) the solver decides that inc returns exactly the satisfying rows and exc the others in original order, with all columns, operand unchanged, inc idempotent and inc() the identity; find_<col> returns the unique value or raises.',
              note = 'Trusted: z3/cvc5, CPython, proxies. Floats are extended reals; strings and regexes from pools chosen by symbolic index; find_ uses pooled concrete cells because set() hashes them; conjunctions of two conditions on tables of <= 1 row in quick (2 in thorough).'),
+
+ 'C02': dict(engine = 'symx', technique = 'symbolic execution of real dictable.join/xor/_listby/sort/cmp with z3 over tagged key cells (None, ints, extended-real floats, NaN identity, pooled strings); fuel-bounded termination check; counterexample replay',
+             text = 'For all pairs of tables up to 2x2 rows (thorough 3x2, 2x3) with symbolic keys, every lcols/rcols spelling and mode, the solver decides that join returns exactly the key-equal (left,right) pairs with multiplicity carrying key and other columns as the mode prescribes, xor the unmatched rows, join and xor partition the left rows, operands stay unchanged, and no path exceeds the unwinding bound (termination).',
+             note = 'Trusted: z3/cvc5, CPython, proxies. Floats are extended reals; strings from a pool; payload columns hold concrete row ids. Non-termination = more than 4000 solver-decided branches on one path, confirmed by concrete replay under an alarm. Two key columns only on 1x1 tables in quick.'),
 }
 NA = {}
 TODO = 'check not built yet in this session (work in progress); will be decided by symbolic execution of the real code as described in DESIGN.md'
